@@ -131,6 +131,16 @@ class FakeKazoo(KazooClient):
       self._fire(self.cw, parent, EventType.CHILD)
     return True
 
+  def z_set(self, path, data):
+    """Data of an existing node changes (version bump): data watches fire with CHANGED."""
+    if path not in self.tree:
+      return False
+    self.zxid += 1
+    old = self.tree[path][1]
+    self.tree[path] = (data, Stat(old.czxid, self.zxid, old.version + 1, data))
+    self._fire(self.dw, path, EventType.CHANGED)
+    return True
+
   def z_delete(self, path):
     if path not in self.tree:
       return False
